@@ -168,9 +168,11 @@ fn artifact_event(inp: &Value) -> Value {
     for l in inp["layers"].as_array().unwrap() {
         let kind = l["kind"].as_str().unwrap();
         let ann = &l["ann"];
+        let mut echo = Value::Null;
         let r: anyhow::Result<Vec<u8>> = (|| match kind {
             "instance" => {
                 let m = payload_instance(&l["payload"]);
+                echo = instance_to(&m);
                 let mut a = InstanceAnnotations::default();
                 set_common_instance_ann(&mut a, ann);
                 let b = m.encode_to_vec();
@@ -179,6 +181,7 @@ fn artifact_event(inp: &Value) -> Value {
             }
             "parametric" => {
                 let m = pinstance_from(&l["payload"]);
+                echo = pinstance_to(&m);
                 let mut a = ParametricInstanceAnnotations::default();
                 set_common_pinstance_ann(&mut a, ann);
                 let b = m.encode_to_vec();
@@ -187,6 +190,7 @@ fn artifact_event(inp: &Value) -> Value {
             }
             "solution" => {
                 let m = state_from(&l["payload"]);
+                echo = state_to(&m);
                 let mut a = SolutionAnnotations::default();
                 if let Some(t) = opt(&ann["start"]) { a.set_start(parse_time(t.as_str().unwrap())); }
                 if let Some(t) = opt(&ann["end"]) { a.set_end(parse_time(t.as_str().unwrap())); }
@@ -200,6 +204,7 @@ fn artifact_event(inp: &Value) -> Value {
             }
             "sample_set" => {
                 let m = sampleset_from(&l["payload"]);
+                echo = sampleset_to(&m);
                 let mut a = SampleSetAnnotations::default();
                 if let Some(t) = opt(&ann["start"]) { a.set_start(parse_time(t.as_str().unwrap())); }
                 if let Some(t) = opt(&ann["end"]) { a.set_end(parse_time(t.as_str().unwrap())); }
@@ -214,7 +219,7 @@ fn artifact_event(inp: &Value) -> Value {
             k => panic!("layer kind {k}"),
         })();
         match r {
-            Ok(b) => stored.push(json!({"tag":"ok","len":b.len(),"bytes":b})),
+            Ok(b) => stored.push(json!({"tag":"ok","len":b.len(),"bytes":b,"echo":echo})),
             Err(e) => stored.push(json!({"tag":"err","msg":format!("{e:#}")})),
         }
     }
